@@ -56,7 +56,7 @@ static void print_exn (sexp ctx, sexp e) {
   char kind[64] = "?";
   if (sexp_symbolp(k)) {
     sexp s = sexp_symbol_to_string(ctx, k);
-    if (sexp_stringp(s)) snfprintf(out, kind, sizeof(kind), "%s", sexp_string_data(s));
+    if (sexp_stringp(s)) snprintf(kind, sizeof(kind), "%s", sexp_string_data(s));
   }
   fprintf(out, "E %s | %.120s\n", kind, sexp_stringp(m) ? sexp_string_data(m) : "?");
 }
@@ -106,7 +106,7 @@ int main (int argc, char **argv) {
   const char *probe = default_probe;
   sexp ctx;
   int i;
-  if (argc < 2) { ffprintf(stderr, "usage: evalseq <items> [--skip N] [--heap B] [--max B] [--item-ms MS] [--probe-file F]\n"); return 2; }
+  if (argc < 2) { fprintf(stderr, "usage: evalseq <items> [--skip N] [--heap B] [--max B] [--item-ms MS] [--probe-file F]\n"); return 2; }
   for (i = 2; i + 1 < argc; i += 2) {
     if (!strcmp(argv[i], "--skip")) skip = atol(argv[i+1]);
     else if (!strcmp(argv[i], "--heap")) heap = strtoul(argv[i+1], NULL, 10);
